@@ -171,9 +171,6 @@ impl D {
     pub fn is_nan(self, c: C) -> bool {
         self.is_float() && self.f(c).is_nan()
     }
-    pub fn is_inf(self, c: C) -> bool {
-        self.is_float() && self.f(c).is_infinite()
-    }
 
     /// Is `v` a value of the model interval (engine ordering)?
     pub fn member(self, iv: &Iv, v: C) -> bool {
